@@ -41,9 +41,9 @@ Proof.
   - intros v1 v2 o1 o2 b H. unfold olive in H. cbn in H. apply nth_error_In in H. apply repeat_spec in H. discriminate.
 Qed.
 
-Lemma slot_live : forall s v o, slot s v = Some o <-> olive s v o.
+Lemma oslot_live : forall s v o, oslot s v = Some o <-> olive s v o.
 Proof.
-  intros. unfold slot, olive. destruct (nth_error (objs s) v) as [x|]; split; intro H; try discriminate; congruence.
+  intros. unfold oslot, olive. destruct (nth_error (objs s) v) as [x|]; split; intro H; try discriminate; congruence.
 Qed.
 
 (* two slots exchange their contents (x conceptually at d - possibly a brand-new empty vector -, y at sv) *)
@@ -131,7 +131,7 @@ Proof.
       unfold olive. cbn. rewrite nth_error_set_nth. unfold olive in Hu. rewrite Hu.
       destruct (Nat.eqb_spec v u); [congruence|reflexivity].
   - (* ensure *)
-    destruct (slot s v) as [ob|] eqn:Es; [|assumption]. apply slot_live in Es.
+    destruct (oslot s v) as [ob|] eqn:Es; [|assumption]. apply oslot_live in Es.
     destruct ((i <? 0) || table_qualified _ _) eqn:Eq; [assumption|].
     pose proof (oi_ctor s I _ _ Es) as Hc.
     set (k := Z.to_nat (create_hi (Z.of_nat (length (oblocks ob)))
@@ -188,7 +188,7 @@ Proof.
         exists v, ob'. split; [assumption|]. cbn. apply in_app_iff. right. apply in_seq. lia.
   - (* move construction *)
     destruct (nth_error (objs s) d) as [[|]|] eqn:Ed; try assumption.
-    destruct (slot s sv) as [so|] eqn:Es; [|assumption]. apply slot_live in Es.
+    destruct (oslot s sv) as [so|] eqn:Es; [|assumption]. apply oslot_live in Es.
     destruct (Nat.eqb_spec d sv) as [|Hne]; [assumption|].
     rewrite cvo_move_delegates_a_copy. pose proof (oi_ctor s I _ _ Es) as Hc.
     rewrite swap_objs_eq. cbn [octor obs oblocks oretired].
@@ -198,19 +198,19 @@ Proof.
       eauto; cbn; try reflexivity.
     right. repeat split; auto. lia.
   - (* move assignment *)
-    destruct (slot s d) as [od|] eqn:Ed; [|assumption]. destruct (slot s sv) as [so|] eqn:Es; [|assumption].
-    apply slot_live in Ed. apply slot_live in Es.
+    destruct (oslot s d) as [od|] eqn:Ed; [|assumption]. destruct (oslot s sv) as [so|] eqn:Es; [|assumption].
+    apply oslot_live in Ed. apply oslot_live in Es.
     destruct (Nat.eqb_spec d sv) as [|Hne]; [assumption|]. cbn [orb negb]. change (move_assign_swaps =? 1) with true. cbn [negb].
     rewrite swap_objs_eq.
     eapply (oinv_exchange s d sv (Some od) od so); eauto; cbn; reflexivity.
   - (* swap *)
-    destruct (slot s a) as [oa|] eqn:Ea; [|assumption]. destruct (slot s b) as [ob|] eqn:Eb; [|assumption].
-    apply slot_live in Ea. apply slot_live in Eb.
+    destruct (oslot s a) as [oa|] eqn:Ea; [|assumption]. destruct (oslot s b) as [ob|] eqn:Eb; [|assumption].
+    apply oslot_live in Ea. apply oslot_live in Eb.
     destruct (Nat.eqb_spec a b) as [|Hne]; [assumption|].
     rewrite swap_objs_eq.
     eapply (oinv_exchange s a b (Some oa) oa ob); eauto; cbn; reflexivity.
   - (* destroy *)
-    destruct (slot s v) as [ob|] eqn:Es; [|assumption]. apply slot_live in Es.
+    destruct (oslot s v) as [ob|] eqn:Es; [|assumption]. apply oslot_live in Es.
     match goal with |- OInv ?x => set (s' := x) end.
     pose proof (oi_nodup s I _ _ Es) as Hnd. pose proof (oi_len s I) as Hlen.
     assert (HL : forall u o, olive s' u o -> u <> v /\ olive s u o).
@@ -258,14 +258,14 @@ Qed.
 (* when every vector object is gone, every block ever created was constructed (by a real constructor) and destroyed
    exactly once *)
 Theorem cvo_death : forall sb n ops b,
-  forallb pos_ctor ops = true -> (forall v, slot (orun (oinit sb n) ops) v = None) ->
+  forallb pos_ctor ops = true -> (forall v, oslot (orun (oinit sb n) ops) v = None) ->
   (b < length (built (orun (oinit sb n) ops)))%nat ->
   0 < nth b (built (orun (oinit sb n) ops)) 0 /\ nth b (killed (orun (oinit sb n) ops)) 0%nat = 1%nat.
 Proof.
   intros sb n ops b Hp Hnone Hb. pose proof (orun_inv ops _ (oinv_init sb n) Hp) as I.
   destruct (oi_all _ I b Hb) as (A & B & C). split; [assumption|].
   destruct (nth b (killed (orun (oinit sb n) ops)) 0%nat) as [|[|k]] eqn:E; [|reflexivity|lia].
-  exfalso. destruct (C eq_refl) as (v & o & Hv & _). apply slot_live in Hv. rewrite Hnone in Hv. discriminate.
+  exfalso. destruct (C eq_refl) as (v & o & Hv & _). apply oslot_live in Hv. rewrite Hnone in Hv. discriminate.
 Qed.
 
 (* non-vacuity: build, move-construct, grow both the moved-to and the moved-from vector, swap, destroy everything *)
@@ -273,7 +273,7 @@ Definition obj_example : list oop :=
   [QCreate 0 7 2; QEnsure 0 3; QMoveCtor 1 0; QEnsure 1 5; QEnsure 0 1; QCreate 2 9 1; QEnsure 2 0; QSwap 2 1; QMoveAssign 0 2;
    QDestroy 0; QDestroy 1; QDestroy 2].
 Lemma cvo_example : forallb pos_ctor obj_example = true /\
-  (forall v, slot (orun (oinit 0 3) obj_example) v = None) /\ length (built (orun (oinit 0 3) obj_example)) = 5%nat.
+  (forall v, oslot (orun (oinit 0 3) obj_example) v = None) /\ length (built (orun (oinit 0 3) obj_example)) = 5%nat.
 Proof.
   split; [reflexivity|]. split; [|vm_compute; reflexivity].
   intros [|[|[|v]]]; vm_compute; try reflexivity. destruct v; reflexivity.
